@@ -8,6 +8,29 @@ use crate::endpoint::Endpoint;
 use crate::task_handle::TaskHandle;
 use crate::ZmqResult;
 
+use futures::channel::oneshot;
+use futures::future::Shared;
+use futures::{select, FutureExt};
+
+/// Resolves once the accept task that handed it out has gone (unbind, close or drop of the socket).
+pub(crate) type AcceptStopped = Shared<oneshot::Receiver<()>>;
+
+/// Runs the handshake of an accepted connection until it is done or its listener has gone, so
+/// that a peer that connects and then stays silent does not keep its connection and its task
+/// alive after the socket was closed or dropped.
+pub(crate) async fn until_stopped<T>(handshake: T, stopped: AcceptStopped)
+where
+    T: std::future::Future<Output = ()>,
+{
+    let handshake = handshake.fuse();
+    let mut stopped = stopped.fuse();
+    futures::pin_mut!(handshake);
+    select! {
+        _ = handshake => {},
+        _ = stopped => {},
+    }
+}
+
 macro_rules! do_if_enabled {
     ($feature:literal, $body:expr) => {{
         #[cfg(feature = $feature)]
